@@ -288,6 +288,9 @@ class Gen:
         if b[0] == "handshake" and (r.random() < 0.5 or not b[2]):
             m["extra"] = r.choice([{"meta": False}, {"meta": 0}, {"meta": None}, {"meta": True}, {"object_id": "target"},
                                    {"flags": 1, "meta": ""}])
+        if r.random() < 0.05:
+            # every field right except the magic number at the end of the header: malformed, whatever else it says
+            m["magic"] = r.choice([0x0000, 0xffff, 0x4dc4, 0xc54d, 0x4d00])
         return ("msg", m)
 
     def history(self):
@@ -300,6 +303,8 @@ class Gen:
             if good:
                 items = [("msg", {"type": 1, "ser": r.choice([1, 2, 3, 4]), "seq": r.randint(0, 65535), "oneway": False,
                                   "body": ("handshake", True, True, "accept")})]
+                if r.random() < 0.06:
+                    items[0][1]["magic"] = r.choice([0x0000, 0xffff, 0x4dc4, 0xc54d, 0x4d00])
             for _ in range(r.choice([0, 1, 2, 3, 4])):
                 items.append(self.item(False))
             if r.random() < 0.4:
@@ -323,6 +328,8 @@ def item_tokens(it):
     if it[0] == "timeout":
         return ["T"]
     m = it[1]
+    if m.get("magic") is not None:
+        return ["G"]            # a message with a wrong magic number is garbage
     toks = ["M", str(m["type"]), str(m["ser"]), str(m["seq"]), "1" if m["oneway"] else "0"]
     b = m["body"]
     if b[0] == "undecodable":
@@ -394,7 +401,10 @@ def item_bytes(it, first=False):
         return full[:k], ("reset" if (len(it) > 2 and it[2] == "reset") else "eof")
     if it[0] == "timeout":
         return b"", "timeout"
-    return srvkit.render_msg(it[1]), None
+    data = srvkit.render_msg(it[1])
+    if it[1].get("magic") is not None:
+        data = data[:38] + int(it[1]["magic"]).to_bytes(2, "big") + data[40:]
+    return data, None
 
 
 def run_real(servertype, nconn, evs, hook_raises=(), linger=None, collect=False, commtimeout=0.0):
@@ -490,6 +500,10 @@ def _run(ctx, name, n, do_model):
                 if o["execs"] and not accepted:
                     ctx.fail("exec-before-handshake", "%s server executed %r for a connection whose first reply was %r"
                              % (st, o["execs"], o["replies"][:1]), cases[-1])
+                if o.get("premature"):
+                    ctx.fail("daemon-object-before-validation", "%s server ran %s of the registered object 'Pyro.Daemon' for a connection "
+                             "before the handshake validator had accepted it (first reply %r)"
+                             % (st, "/".join(sorted(set(o["premature"]))), o["replies"][:1]), cases[-1])
                 good_first = (first[0] == "msg" and first[1]["type"] == 1 and first[1]["ser"] in (1, 2, 3, 4)
                               and first[1]["body"] == ("handshake", True, True, "accept"))
                 if accepted and not good_first:
@@ -721,6 +735,6 @@ def replay(ctx, case):
     obs, res, pool = run_real(c["servertype"], c["nconn"], evs)
     print("history:", hist_line(c["nconn"], evs))
     print("observed:", real_line(obs))
-    bad = any(o and o["execs"] and not (o["replies"] and o["replies"][0][0] == 2) for o in obs)
+    bad = any(o and ((o["execs"] and not (o["replies"] and o["replies"][0][0] == 2)) or o.get("premature")) for o in obs)
     print("VIOLATION reproduced" if bad else "see observed replies above")
     return 1
